@@ -1,5 +1,6 @@
 import Sif.Spec.C09
 import Sif.Generated.MapRanges
+import Sif.Generated.PkgVars
 import Sif.Proofs.C09
 /-
   C09 — determinism.  Property theorems only.
@@ -23,6 +24,12 @@ theorem mapRanges_covered : uncoveredRanges mapRanges = [] := by decide +kernel
 
 /-- every float / math / time / rand / goroutine use is a reviewed one -/
 theorem nondetUses_allowed : unallowedUses nondetUses = [] := by decide +kernel
+
+/-- every package-level variable written outside `init` (process-level state that outlives blocks,
+    rolled-back transactions, simulations and application instances) is an audited one -/
+theorem pkgVars_audited : unauditedPkgVars Sif.Generated.PkgVars.pkgVars = [] := by decide +kernel
+
+theorem pkgVars_typechecked : Sif.Generated.PkgVars.loadErrors = [] := by decide
 
 /-! ## Order-independence of every map-ranging computation (iteration order = any permutation) -/
 
